@@ -412,8 +412,41 @@ def r4(ctx):
         raise AnalysisBroken('C16.R4: only %d result sites found' % n)
 
 
+def r5(ctx):
+    ctx.rule('C16.R5', 'UserList::checkSecret succeeds only if the presented secret equals the stored one as a whole string: '
+             'every return that can be true requires the string equality (stored == presented) of the entry found for the '
+             'user', minimum=1, star=True)
+    fb = ctx.fb
+    fn = fb.fn('ebusd::UserList::checkSecret')
+    ctx.touch(fn)
+    sec = fn.P(1)
+    n = 0
+    import re
+    for r in fn.all('ReturnStmt'):
+        rv = fn.nodes[r].get('val')
+        if rv is None or fn.val(rv) == 0:
+            continue
+        n += 1
+        need = re.compile(r'^\((?:.*\.second|\*?\w+) == %s\)$|^\(%s == (?:.*\.second|\*?\w+)\)$' % (re.escape(sec), re.escape(sec)))
+
+        def eq_atoms(conj):
+            return any(need.match(facts.atom_key(fn, a)[0]) and facts.atom_key(fn, a)[1] for a in conj)
+        ok = True
+        if fn.val(rv) == 1:
+            # `return true`: the equality must dominate the return
+            ok = any(need.match(k) and p for k, p in ((a[0], a[1]) for a in fn.atoms(r)))
+        else:
+            dnf = facts.implied(fn, rv, True)
+            dom = any(need.match(k) and p for k, p in ((a[0], a[1]) for a in fn.atoms(r)))
+            ok = dom or (bool(dnf) and all(eq_atoms(c) for c in dnf))
+        ctx.ob('C16.R5', fn, r, ok, 'checkSecret result', 'true only with %s equal to the stored secret: %s (%s)' % (sec, ok, fn.key(rv)[:90]))
+    if n == 0:
+        raise AnalysisBroken('C16.R5: no accepting return in UserList::checkSecret')
+
+
 def run(ctx):
     r1(ctx)
     r2(ctx)
     r3(ctx)
     r4(ctx)
+    r5(ctx)
